@@ -15,6 +15,7 @@ import onnx_ir as ir
 
 from irsim import modelgen, snapshot
 from irsim.world import World
+from simcore import knobs as _knobs
 from simcore.prng import Streams, digest
 
 logging.getLogger("onnx_ir").setLevel(logging.ERROR)
@@ -56,7 +57,7 @@ def gen_case(run_seed: int, tier: str, index: int = 0) -> dict:
     )  # fmt: skip
     n = r.choice([15, 25, 40, 60])
     steps = [[r.choices(OPS, WEIGHTS)[0], r.randrange(1 << 20), r.randrange(1 << 20), r.randrange(1 << 20)] for _ in range(n)]
-    return {"property": PROPERTY, "run_seed": run_seed, "model_seed": r.randrange(1 << 30), "params": params, "steps": steps}
+    return {"property": PROPERTY, "warnings_error": _knobs.warnings_knob(run_seed), "run_seed": run_seed, "model_seed": r.randrange(1 << 30), "params": params, "steps": steps}
 
 
 def _all_nodes(model) -> list:
@@ -132,6 +133,11 @@ def check_serialized(model) -> tuple | None:
 
 
 def run_case(case: dict) -> dict:
+    with _knobs.interpreter(case):
+        return _run_case(case)
+
+
+def _run_case(case: dict) -> dict:
     stats: dict = {}
     res = {"violation": None, "error": None, "stats": stats, "steps": 0, "distinct": [], "states": [], "case": case}
 
